@@ -1,8 +1,9 @@
 import Rustic.Model.RoundTrip
+import Rustic.Model.Snapshot
 import Rustic.Gen.Constants
 import Driver.Util
 import Driver.C06
-/-! `c01 <esc|unesc|start|coalesce|e2e|e2el> …` — see harness/src/c01.rs. -/
+/-! `c01 <esc|unesc|start|coalesce|link|e2e|e2el> …` — see harness/src/c01.rs. -/
 namespace Driver.C01
 open Rustic.RoundTrip Driver
 
@@ -141,6 +142,9 @@ def e2eObs (rest : List String) : String :=
   | none => "bad-op"
   | some obs => "ok " ++ " ".intercalate obs
 
+/-- strings as the real code makes them: std's cutting, the UTF-8 encoder; the lossy string is not modelled -/
+def strOf : Rustic.Snapshot.Str := { cut := fun bs => decode bs #[], enc := utf8, lossy := fun _ => [] }
+
 def handle : List String → String
   | ["esc", name] =>
     match unhex name with
@@ -178,6 +182,17 @@ def handle : List String → String
     | some ls =>
       let gs := coalesceAll Rustic.Gen.C01_MAX_HOLESIZE Rustic.Gen.C01_LIMIT_PACK_READ ls
       "ok " ++ " ".intercalate (gs.map fun g => s!"{g.offset}:{g.length}:{g.blobs.length}")
+  | ["link", t] =>
+    match unhex t with
+    | none => "bad-op"
+    | some bs =>
+      match Rustic.Snapshot.fromLink strOf bs with
+      | .symlink l raw =>
+        let stored := match raw with
+          | none => hex (l.flatMap utf8)
+          | some _ => "-"
+        s!"ok {if raw.isSome then 1 else 0} {hex (raw.getD (l.flatMap utf8))} {stored}"
+      | _ => "bad-op"
   | "e2e" :: rest => e2eObs rest
   | "e2el" :: rest => e2eObs rest
   | _ => "bad-op"
